@@ -372,7 +372,7 @@ func runC20(w *h.W, batch int) {
 			if allow {
 				mode = "allow"
 			}
-			w.Held(surface+"|"+mode+"|"+lclass, nontrivial)
+			w.Held(fmt.Sprintf("%s|%s|%s|f%d|j%d|k%d", surface, mode, lclass, len(fields), min(judged, 9), min(len(keys)/4, 6)), nontrivial)
 		}
 		cl.Stop()
 	}
